@@ -75,6 +75,10 @@ def main():
         corrupt("ready note: callback never fires", lambda r: r["e"] == "note" and r.get("kind") == "rdyFire", drop)
         corrupt("ready note: callback fires twice", lambda r: r["e"] == "note" and r.get("kind") == "rdyFire", lambda rs, i: rs[:i] + [rs[i]] + rs[i:])
         corrupt("ready note: load completion dropped", lambda r: r["e"] == "note" and r.get("kind") == "subLoaded", drop)
+        corrupt("conn queue note: queue length off by one", lambda r: r["e"] == "note" and r.get("kind") == "cqEnq" and r["count"] > 0, setf("count", lambda n: n - 1))
+        corrupt("conn queue note: a closure is not run", lambda r: r["e"] == "note" and r.get("kind") == "cqRun" and r["idx"] > 0, drop)
+        corrupt("conn queue note: worker never leaves", lambda r: r["e"] == "note" and r.get("kind") == "cqDone", drop)
+        corrupt("conn queue note: refusal before dispose", lambda r: r["e"] == "note" and r.get("kind") == "cqDispose", drop)
         print("BINDING-SELFTEST", "ok" if ok else "WEAK")
         return 0 if ok else 1
     finally:
